@@ -38,7 +38,27 @@ func StoreBase(addr ssa.Value) (kind string, base ssa.Value) {
 				return "captured", y
 			}
 			b = nb
-		case *ssa.Call, *ssa.MakeMap, *ssa.MakeSlice, *ssa.Slice, *ssa.Phi, *ssa.Extract:
+		case *ssa.Call:
+			// a pointer handed out by a module function that only returns
+			// addresses inside its own (pointer) parameters, e.g. a register selector
+			if cal := x.Call.StaticCallee(); cal != nil && load.InModule(cal) && cal.Blocks != nil && returnsParamRooted(cal, 0) {
+				return "param", x
+			}
+			return "fresh-or-unknown", x
+		case *ssa.Phi:
+			all := len(x.Edges) > 0
+			for _, e := range x.Edges {
+				if k, _ := StoreBase(e); k != "param" && k != "local" && k != "captured" {
+					if c, ok := e.(*ssa.Const); !ok || c.Value != nil {
+						all = false
+					}
+				}
+			}
+			if all {
+				return "param", x
+			}
+			return "fresh-or-unknown", x
+		case *ssa.MakeMap, *ssa.MakeSlice, *ssa.Slice, *ssa.Extract:
 			return "fresh-or-unknown", x
 		default:
 			return fmt.Sprintf("%T", b), b
@@ -133,4 +153,35 @@ func Unexported(t types.Type, path string, out *[]string, depth int) {
 			Unexported(f.Type(), path+"."+f.Name(), out, depth+1)
 		}
 	}
+}
+
+// returnsParamRooted: every pointer the function returns is nil or an address
+// inside one of its parameters (or such a pointer obtained from another
+// function with the same property).
+func returnsParamRooted(fn *ssa.Function, depth int) bool {
+	if depth > 3 {
+		return false
+	}
+	found := false
+	for _, b := range fn.Blocks {
+		for _, in := range b.Instrs {
+			r, ok := in.(*ssa.Return)
+			if !ok {
+				continue
+			}
+			for _, res := range r.Results {
+				if _, isPtr := res.Type().Underlying().(*types.Pointer); !isPtr {
+					continue
+				}
+				found = true
+				if c, ok := res.(*ssa.Const); ok && c.Value == nil {
+					continue
+				}
+				if k, _ := StoreBase(res); k != "param" {
+					return false
+				}
+			}
+		}
+	}
+	return found
 }
